@@ -115,4 +115,61 @@ def IdleState.step (s : IdleState) : IdleStep → IdleState
 
 def IdleState.run (s : IdleState) (steps : List IdleStep) : IdleState := steps.foldl IdleState.step s
 
+/-! ## (3) the update injector's forwarder and the user's update goroutine (internal/backend)
+
+`user.close`: close(updateQuitCh); updateWG.Wait()  -- the only receiver of `updatesCh` is gone --
+and only then `updateInjector.Close`: close(forwardQuitCh); forwardWG.Wait(). The connector's channel is
+unbuffered: once a send on it returned, the forwarder HOLDS that update and stands in its hand-over select. -/
+
+inductive InjPhase where
+  | waiting   -- the outer select of `forward`
+  | holding   -- took an update off the connector's channel; in the hand-over select (`send`)
+  | exited
+deriving DecidableEq, Repr
+
+structure InjState where
+  watchOuter : Bool     -- the outer select has a case on forwardQuitCh
+  watchInner : Bool     -- the hand-over select has a case on forwardQuitCh
+  fwd : InjPhase
+  readerAlive : Bool    -- the user's update goroutine
+  readerQuit : Bool     -- updateQuitCh closed
+  quit : Bool           -- forwardQuitCh closed
+  closeReturned : Bool  -- forwardWG.Wait() returned: updateInjector.Close, hence user.close, returns
+  delivered : Nat
+deriving DecidableEq, Repr
+
+inductive InjStep where
+  | publish          -- the connector's send returns: the forwarder holds an update
+  | deliver          -- the update goroutine takes the held update (and applies it)
+  | closeReaderQuit  -- user.close: close(updateQuitCh)
+  | readerPoll       -- the update goroutine's select picks the closed updateQuitCh: it returns
+  | closeQuit        -- updateInjector.Close: close(forwardQuitCh) - after updateWG.Wait(), i.e. reader gone
+  | fwdPoll          -- the forwarder's current select is evaluated
+  | waitReturn       -- forwardWG.Wait() returns once the forwarder has run its deferred Done()
+deriving DecidableEq, Repr
+
+def InjState.init (watchOuter watchInner : Bool) : InjState :=
+  { watchOuter := watchOuter, watchInner := watchInner, fwd := .waiting, readerAlive := true,
+    readerQuit := false, quit := false, closeReturned := false, delivered := 0 }
+
+def InjState.step (s : InjState) : InjStep → InjState
+  | .publish => if s.fwd = .waiting then { s with fwd := .holding } else s
+  | .deliver =>
+    if s.fwd = .holding ∧ s.readerAlive = true then { s with fwd := .waiting, delivered := s.delivered + 1 } else s
+  | .closeReaderQuit => { s with readerQuit := true }
+  | .readerPoll => if s.readerQuit = true then { s with readerAlive := false } else s
+  | .closeQuit => if s.readerQuit = true ∧ s.readerAlive = false then { s with quit := true } else s
+  | .fwdPoll =>
+    if s.quit = true ∧ ((s.fwd = .waiting ∧ s.watchOuter = true) ∨ (s.fwd = .holding ∧ s.watchInner = true)) then
+      { s with fwd := .exited }
+    else s
+  | .waitReturn => if s.quit = true ∧ s.fwd = .exited then { s with closeReturned := true } else s
+
+def InjState.run (s : InjState) (steps : List InjStep) : InjState := steps.foldl InjState.step s
+
+/-- are all blocking channel operations of goroutine `loop` watched by quit channel `quit`? (rows of
+Generated/Facts/GoLoops.lean: goroutine, quit channel of the enclosing select, operation, watched) -/
+def loopWatched (ops : List (String × String × String × Bool)) (loop quit : String) : Bool :=
+  ops.any (fun o => o.1 == loop) && ops.all (fun o => o.1 != loop || (o.2.2.2 && o.2.1 == quit))
+
 end Gluon.Conc
